@@ -10,7 +10,8 @@ from .xt import veq
 VMODES = ["ramp", "extreme", "minimal", "long"]
 PY_FORMS = ["py"]
 ND = ["nd", "ndF", "ndS", "ndD", "ndR", "ndFD", "ndTD", "ndB"]
-XOBJ = ["xobj-same", "xobj-other", "xobj-ctx", "xobj-kind", "xobj-nested", "xobj-slack", "ref-same", "ref-foreign", "xobj-view", "xobj-nested-view", "xobj-twin", "xobj-capslack"]
+XOBJ = ["xobj-same", "xobj-other", "xobj-ctx", "xobj-kind", "xobj-nested", "xobj-slack", "ref-same", "ref-foreign", "xobj-view", "xobj-nested-view", "xobj-twin", "xobj-capslack",
+        "xobj-dyn", "xobj-dyn-view", "xobj-dyn-len"]  # xobj-dyn*: a static-shape array built from an object of the all-dynamic class of the same shape
 CAP = ["cap"]
 # arrays of static items given by their dynamic extents (python int / small numpy integers), items assigned one by one afterwards
 LEN = ["len", "len-i8", "len-i16"]
@@ -85,6 +86,9 @@ def forms_for(t, v, want):
                 out.append(f)
         elif f == "xobj-twin":
             if t[0] == "A" and len(t[2]) >= 2 and not xt.has_refs(t):
+                out.append(f)
+        elif f in ("xobj-dyn", "xobj-dyn-view", "xobj-dyn-len"):
+            if t[0] == "A" and all(d is not None for d in t[2]) and not xt.has_refs(t) and xt.py_expressible(t, v) and (f != "xobj-dyn-len" or not xt.is_dyn(t[1])):
                 out.append(f)
         elif f in ("ref-same", "ref-foreign"):
             if xt.has_refs(t) and t[0] != "U" and xt.py_expressible(t, v):
@@ -333,7 +337,7 @@ def execute(t, v, form, pname, salt=0):
             kw = dict(_buffer=place.traced("np", 0))
         elif form == "xobj-kind":
             kw = dict(_buffer=place.traced("ba", 0))
-        elif form in ("xobj-slack", "xobj-view", "xobj-twin", "xobj-capslack"):
+        elif form in ("xobj-slack", "xobj-view", "xobj-twin", "xobj-capslack", "xobj-dyn", "xobj-dyn-view", "xobj-dyn-len"):
             kw = dict(_buffer=place.traced("np", 0))
         else:
             kw = dict(_buffer=place.traced("np", 0, context=place.ctx(1)))
@@ -342,6 +346,15 @@ def execute(t, v, form, pname, salt=0):
             # order) and holds the same logical value
             tw = xt.twin(t)
             o.src = xt.construct(tw, base_arg(tw, v), **kw)
+        elif form.startswith("xobj-dyn"):
+            dt = ("A", t[1], tuple(None for _ in t[2]), t[3])
+            if form == "xobj-dyn-len":
+                o.src = xt.construct(dt, len_arg(dt, v, int), **kw)
+                len_fill(dt, v, o.src)
+            else:
+                o.src = xt.construct(dt, base_arg(dt, v), **kw)
+            if form == "xobj-dyn-view":
+                o.src = xt.build(dt)._from_buffer(o.src._buffer, o.src._offset)
         elif form == "xobj-capslack":
             o.expect = v = some_empty(t, v)
             o.v = v
